@@ -1,9 +1,12 @@
 package tlskdfeng
 
 import (
+	"strings"
+
 	"encoding/hex"
 	"math/rand/v2"
 	"sync"
+	"verifharness/internal/core"
 )
 
 // rbytes returns n pseudo-random bytes from the deterministic stream.
@@ -87,4 +90,23 @@ func (l *lockedBuf) Bytes() []byte {
 	l.mu.Lock()
 	defer l.mu.Unlock()
 	return append([]byte(nil), l.b...)
+}
+
+// panicKey is core's witness key with the complete first zcrypto frame: core.Classify
+// cuts method names at the receiver's parenthesis ("tls." instead of "tls.(*Conn).loadSession").
+func panicKey(pi *core.PanicInfo) string {
+	class := pi.Key
+	if i := strings.LastIndex(class, "@"); i >= 0 {
+		class = class[:i]
+	}
+	for _, line := range strings.Split(pi.Stack, "\n") {
+		if strings.HasPrefix(line, "github.com/zmap/zcrypto/") && !strings.Contains(line, ".Verif") && !strings.Contains(line, ".verif") {
+			f := strings.TrimPrefix(line, "github.com/zmap/zcrypto/")
+			if i := strings.LastIndex(f, "("); i > 0 {
+				f = f[:i]
+			}
+			return class + "@" + f
+		}
+	}
+	return pi.Key
 }
